@@ -187,8 +187,11 @@ def check_seeds_and_stats(fx, R):
                 continue
             if field not in seeds:
                 assigned = [x for x in ex if isinstance(x, tuple) and x[0] == '=' and x[1] == field and not contains_name(x[2], field)]
+                other_mut = [x for x in walk(f['body']) if x.get('k') == 'MCall' and not x.get('mconst') and x.get('m') not in ('array', 'matrix') and sx(x['obj']) == field]
                 if assigned:
                     R.undecided('B1', inst, 'seed of %s is %s, not a setConstant(...) the front end folds' % (field, assigned[0][2]))
+                elif other_mut:
+                    R.undecided('B1', inst, '%s is (re)initialised through %s(), which is not an enumerated seeding form' % (field, other_mut[0].get('m')))
                 else:
                     R.violated('B1', inst + ':not-reseeded', 'compute() updates the running %simum %s with every point but never re-seeds it: the accumulator is a member, so a second compute() on the '
                                'same object reports the hull of every set seen so far, not the extrema of its argument%s' % (want, field, tag), fx.rel(f['loc']), 'E-STATE')
@@ -550,7 +553,11 @@ def check_interval(fx, R):
                 g = got.get(fld)
                 inst = '%s::include:%s' % (cname, fld[5:])
                 if g is None:
-                    R.violated('B5', inst, 'include() does not update %s with the other interval (statements: %s)' % (fld, ex), fx.rel(fc['loc']), 'E-SIB')
+                    mentions = [s_ for s_ in ex if contains_name(s_, fld)] + [x for x in walk(fc['body']) if x.get('k') == 'If']
+                    if mentions:
+                        R.undecided('B5', inst, 'include() treats %s in a form that is not enumerated: %s' % (fld, ex))
+                    else:
+                        R.violated('B5', inst, 'no statement of include() mentions %s: the bound is never extended by the other interval' % fld, fx.rel(fc['loc']), 'E-SIB')
                     continue
                 fname = g[0].lower()
                 okf = (fmin in fname) and not (('max' if fmin == 'min' else 'min') in fname)
